@@ -42,6 +42,7 @@ type layProject struct {
 	res        laySection
 	resLayout  string // none | single | follow
 	kind       string
+	extraLocs  []string // location classes (schemaloc.go) of additional schema files, relative to the exec directory
 }
 
 const laySchema = `type Query { item(id: ID!, in: Filter): Item  items: [Item!]!  node: Node  kind: Kind }
@@ -178,6 +179,45 @@ func (p *layProject) write(root string) error {
 		if err := os.WriteFile(filepath.Join(d, schemaFiles[0]), []byte(laySchema), 0o644); err != nil {
 			return err
 		}
+	}
+	// additional schema files placed relative to the exec directory (dimension "where the schema files live",
+	// schemaloc.go): siblings whose names start with the exec directory's name, the parent, directories below it
+	var locMeta strings.Builder
+	fmt.Fprintf(&locMeta, "kind\t%s\nexec_dir\t%s\nexec_layout\t%s\nstyle\tlist\n", p.kind, filepath.ToSlash(filepath.Clean(p.exec.dir)), map[bool]string{true: "follow-schema", false: "single-file"}[p.execFollow])
+	for _, f := range schemaFiles {
+		fmt.Fprintf(&locMeta, "source\tlayout\t%s\t-\n", filepath.ToSlash(f))
+	}
+	for _, c := range p.extraLocs {
+		rel, ok := locPath(p.exec.dir, c)
+		if !ok {
+			continue
+		}
+		abs := filepath.Join(d, filepath.FromSlash(rel))
+		if _, err := os.Stat(abs); err == nil {
+			continue
+		}
+		// never create a directory that a section expects to find absent or empty
+		clash := false
+		for _, sec := range p.sections() {
+			sd := filepath.ToSlash(filepath.Clean(sec.s.dir))
+			if (sec.s.state == "absent" || sec.s.state == "empty") && (filepath.ToSlash(filepath.Dir(rel)) == sd || strings.HasPrefix(rel, sd+"/")) {
+				clash = true
+			}
+		}
+		if clash {
+			continue
+		}
+		if err := os.MkdirAll(filepath.Dir(abs), 0o755); err != nil {
+			return err
+		}
+		if err := os.WriteFile(abs, []byte(fmt.Sprintf("extend type Query { loc_%s: Int }\n", c)), 0o644); err != nil {
+			return err
+		}
+		schemaFiles = append(schemaFiles, rel)
+		fmt.Fprintf(&locMeta, "source\t%s\t%s\t%v\n", c, rel, locIsInside(c))
+	}
+	if err := os.WriteFile(filepath.Join(d, "schemalocs.tsv"), []byte(locMeta.String()), 0o644); err != nil {
+		return err
 	}
 	if err := os.WriteFile(filepath.Join(d, "gqlgen.yml"), []byte(p.yml(schemaFiles)), 0o644); err != nil {
 		return err
@@ -381,6 +421,7 @@ func writeLayouts(root string, seed uint64, tier, corpus string) {
 	}
 	pe, pm, pr := perm(), perm(), perm()
 	kwRot := r.Below(len(layNames["keyword"]))
+	locRot := int((seed * 7) % 11) // not drawn from r: the layouts of a seed stay what they were before this dimension
 	nameOf := func(class string, slot, k int) string {
 		pool := layNames[class]
 		if class == "keyword" {
@@ -418,6 +459,9 @@ func writeLayouts(root string, seed uint64, tier, corpus string) {
 		p.exec = laySection{dir: ed, state: stateOf(pe[k].state, ed, k, 0)}
 		p.model = laySection{dir: md, state: stateOf(pm[k].state, md, k, 1)}
 		p.res = laySection{dir: rd, state: stateOf(pr[k].state, rd, k, 2)}
+		// where the schema files live: one location outside the exec directory (rotating through the classes) and one
+		// below it (skipped by write() when the exec directory is to be absent / empty before the first generation)
+		p.extraLocs = []string{locOutside[(k+locRot)%len(locOutside)], locInside[(k+locRot)%len(locInside)]}
 		if err := p.write(root); err != nil {
 			fail(err)
 		}
@@ -455,6 +499,7 @@ func writeLayouts(root string, seed uint64, tier, corpus string) {
 			}
 			p.res = laySection{dir: rd, state: stateOf(layStates[r.Below(4)], rd, k, 2)}
 		}
+		p.extraLocs = []string{locOutside[(k+3+locRot)%len(locOutside)], locOutside[(2*k+locRot)%len(locOutside)], locInside[(k+2+locRot)%len(locInside)]}
 		if err := p.write(root); err != nil {
 			fail(err)
 		}
@@ -488,6 +533,7 @@ func writeLayouts(root string, seed uint64, tier, corpus string) {
 				}
 			}
 		}
+		p.extraLocs = []string{locOutside[(k+7+locRot)%len(locOutside)], locInside[(k+4+locRot)%len(locInside)]}
 		if err := p.write(root); err != nil {
 			fail(err)
 		}
@@ -504,6 +550,7 @@ func writeLayouts(root string, seed uint64, tier, corpus string) {
 				}
 				*s = laySection{dir: dir, state: stateOf(layStates[r.Below(4)], dir, k, slot)}
 			}
+			p.extraLocs = []string{locOutside[(k+locRot)%len(locOutside)], locOutside[(k/3+5)%len(locOutside)], locInside[(k+1)%len(locInside)]}
 			if err := p.write(root); err != nil {
 				fail(err)
 			}
